@@ -422,6 +422,8 @@ class Tr:
                 cn, ty = self.c.env[nm]
                 if ty == "optint":
                     self.c.env[nm] = (f"(unwrapZ {cn})", "int")
+                if ty == "optbool":
+                    self.c.env[nm] = (f"(match {cn} with Some b => b | None => false end)", "bool")
             a = self.block(s.body + rest) if not self.returns(s.body) else self.block(s.body)
             self.c.env = saved_env
             if s.orelse:
@@ -489,7 +491,8 @@ class Tr:
 
 # ==================================================================== targets
 COQTY = {"int": "Z", "u64": "Z", "f64": "float", "bool": "bool", "str": "string",
-         "arr": "list Z", "arr_u64": "list Z", "optint": "option Z", "optf": "option float", "path": "string"}
+         "arr": "list Z", "arr_u64": "list Z", "optint": "option Z", "optf": "option float", "path": "string",
+         "optbool": "option bool"}
 
 
 def find_func(tree, qual):
@@ -506,13 +509,20 @@ def find_func(tree, qual):
 
 def translate_function(src_file, qual, coq_name, params, ret, funcs, selfmap=None,
                        raises=False, needs_exp=False, end_expr=None, drop_self_attrs=False,
-                       effects=()):
+                       effects=(), rewrite=None, pyparams_expected=None):
     """params: list of (python name, type) in Coq parameter order.
-    end_expr: for __init__-style functions, python attrs to return as a tuple."""
+    end_expr: for __init__-style functions, python attrs to return as a tuple.
+    rewrite: optional ast.NodeTransformer applied to the function first (attribute accesses on
+    an object parameter become plain names); then pyparams_expected lists the python parameters."""
     tree = ast.parse((REPO / src_file).read_text())
     fn = find_func(tree, qual)
-    pyparams = [a.arg for a in fn.args.args + fn.args.kwonlyargs if a.arg != "self"]
-    if sorted(pyparams) != sorted(p for p, _ in params):
+    pyparams = [a.arg for a in fn.args.args + fn.args.kwonlyargs if a.arg not in ("self", "cls")]
+    if rewrite is not None:
+        if sorted(pyparams) != sorted(pyparams_expected):
+            raise Unsupported(f"{qual}: parameter list changed: {pyparams}")
+        fn = rewrite.visit(fn)
+        ast.fix_missing_locations(fn)
+    elif sorted(pyparams) != sorted(p for p, _ in params):
         raise Unsupported(f"{qual}: parameter list changed: {pyparams}")
     env = {p: (p, t) for p, t in params}
     ctx = Ctx(env, ret, funcs, dict(selfmap or {}), raises)
@@ -611,6 +621,42 @@ def gen_mem():
                                   "_ArrayMemPagesManager.release_curr_page_and_update_addr",
                                   "release_curr_page_and_update_addr", [], "selfstate", {}, sm,
                                   end_expr=["_curr_page_start_addr"], effects=["_madvise_dontneed"]))
+
+    class MemmapView(ast.NodeTransformer):
+        """X is a 2-D np.memmap described by (is_memmap, ndim, cols = X.shape[1], offset = X.offset,
+        data = X.ctypes.data); mmap.PAGESIZE is a parameter; cls(...) is the tuple of its arguments"""
+        ATTR = {"X.ndim": "ndim", "X.offset": "offset", "X.ctypes.data": "data", "mmap.PAGESIZE": "pagesize"}
+
+        def visit_Call(self, n):
+            if isinstance(n.func, ast.Name) and n.func.id == "isinstance" and ast.unparse(n) == "isinstance(X, np.memmap)":
+                return ast.copy_location(ast.Name(id="is_memmap", ctx=ast.Load()), n)
+            self.generic_visit(n)
+            if isinstance(n.func, ast.Name) and n.func.id == "cls" and not n.keywords:
+                return ast.copy_location(ast.Tuple(elts=n.args, ctx=ast.Load()), n)
+            return n
+
+        def visit_Attribute(self, n):
+            u = ast.unparse(n)
+            if u in self.ATTR:
+                return ast.copy_location(ast.Name(id=self.ATTR[u], ctx=ast.Load()), n)
+            self.generic_visit(n)
+            return n
+
+        def visit_Subscript(self, n):
+            if ast.unparse(n) == "X.shape[1]":
+                return ast.copy_location(ast.Name(id="cols", ctx=ast.Load()), n)
+            self.generic_visit(n)
+            return n
+
+        def visit_Name(self, n):
+            if n.id == "X":
+                raise Unsupported(f"line {n.lineno}: from_bb_input uses X in an unrecognised way")
+            return n
+    out.append(translate_function(
+        "bblean/_memory.py", "_ArrayMemPagesManager.from_bb_input", "from_bb_input",
+        [("is_memmap", "bool"), ("ndim", "int"), ("cols", "int"), ("offset", "int"), ("data", "int"),
+         ("pagesize", "int"), ("can_release", "optbool")],
+        "tuple:bool,int,int,int", {}, rewrite=MemmapView(), pyparams_expected=["X", "can_release"]))
     return "\n\n".join(out) + "\n"
 
 
@@ -777,6 +823,99 @@ def gen_mr_prev_globs():
             f"Definition prev_idxs_glob (round_idx : Z) : string := {b}.")
 
 
+def gen_mr_publish():
+    """_FinalTreeMergingRound.__call__: the file actions on the output directory, in program order,
+    for save_centroids = True / False (save_tree is ignored: bitbirch.pkl is not a result file of
+    the properties).  Actions: W name (open(name, "wb")), R src dst (src.replace(dst)).  Any other
+    way of writing or renaming below out_dir, a loop or a call to an own helper fails closed."""
+    tree = ast.parse((REPO / "bblean/multiround.py").read_text())
+    fn = find_func(tree, "_FinalTreeMergingRound.__call__")
+
+    def is_outdir(e):
+        return (isinstance(e, ast.Attribute) and e.attr == "out_dir" and isinstance(e.value, ast.Name)
+                and e.value.id == "self")
+
+    def name_of(e, env):
+        if isinstance(e, ast.Name) and e.id in env:
+            return env[e.id]
+        if (isinstance(e, ast.BinOp) and isinstance(e.op, ast.Div) and is_outdir(e.left)
+                and isinstance(e.right, ast.Constant) and isinstance(e.right.value, str)):
+            return e.right.value
+        return None
+
+    def run(stmts, env, flag):
+        acts = []
+        for st in stmts:
+            if isinstance(st, ast.Assign) and len(st.targets) == 1 and isinstance(st.targets[0], ast.Name):
+                nm = name_of(st.value, env)
+                if nm is not None:
+                    env[st.targets[0].id] = nm
+                    continue
+            if isinstance(st, ast.If) and isinstance(st.test, ast.Attribute) and is_outdir_attr(st.test, "save_centroids"):
+                acts += run(st.body if flag else st.orelse, env, flag)
+                continue
+            if isinstance(st, ast.If) and isinstance(st.test, ast.Attribute) and is_outdir_attr(st.test, "save_tree"):
+                continue
+            if isinstance(st, ast.With) and len(st.items) == 1:
+                ce = st.items[0].context_expr
+                if (isinstance(ce, ast.Call) and isinstance(ce.func, ast.Name) and ce.func.id == "open"):
+                    mode = None
+                    if len(ce.args) >= 2 and isinstance(ce.args[1], ast.Constant):
+                        mode = ce.args[1].value
+                    for k in ce.keywords:
+                        if k.arg == "mode" and isinstance(k.value, ast.Constant):
+                            mode = k.value.value
+                    tgt = name_of(ce.args[0], env) if ce.args else None
+                    if mode is not None and "w" in mode:
+                        if tgt is None:
+                            raise Unsupported(f"line {st.lineno}: write to an unrecognised path")
+                        acts.append(("W", tgt))
+                        continue
+                    if mode is not None and "r" in mode:
+                        continue
+            if (isinstance(st, ast.Expr) and isinstance(st.value, ast.Call) and isinstance(st.value.func, ast.Attribute)
+                    and st.value.func.attr == "replace" and len(st.value.args) == 1):
+                src, dst = name_of(st.value.func.value, env), name_of(st.value.args[0], env)
+                if src is None or dst is None:
+                    raise Unsupported(f"line {st.lineno}: rename of an unrecognised path")
+                acts.append(("R", src, dst))
+                continue
+            # anything else must not touch files of out_dir or call own helpers
+            for n in ast.walk(st):
+                if isinstance(n, ast.Call):
+                    f = n.func
+                    if isinstance(f, ast.Attribute) and isinstance(f.value, ast.Name) and f.value.id == "self":
+                        raise Unsupported(f"line {n.lineno}: call of self.{f.attr} in the final round")
+                    if isinstance(f, ast.Attribute) and f.attr in DELETERS | {"write_bytes", "write_text", "touch"}:
+                        raise Unsupported(f"line {n.lineno}: file action .{f.attr} in an unrecognised position")
+                    if isinstance(f, ast.Name) and f.id == "open":
+                        md = [a.value for a in n.args[1:2] if isinstance(a, ast.Constant)] + \
+                             [k.value.value for k in n.keywords if k.arg == "mode" and isinstance(k.value, ast.Constant)]
+                        if not md or "r" not in md[0]:
+                            raise Unsupported(f"line {n.lineno}: open() for writing in an unrecognised position")
+                if isinstance(n, ast.BinOp) and isinstance(n.op, ast.Div) and is_outdir(n.left) \
+                        and not (isinstance(st, ast.If)):
+                    pass
+        return acts
+
+    def is_outdir_attr(e, attr):
+        return isinstance(e, ast.Attribute) and e.attr == attr and isinstance(e.value, ast.Name) and e.value.id == "self"
+
+    def coq_acts(acts):
+        items = []
+        for a in acts:
+            if a[0] == "W":
+                items.append('PW "%s"%%string' % a[1])
+            else:
+                items.append('PR "%s"%%string "%s"%%string' % (a[1], a[2]))
+        return "[" + "; ".join(items) + "]"
+    t = run(list(fn.body), {}, True)
+    f = run(list(fn.body), {}, False)
+    return ("Inductive pub_action := PW (name : string) | PR (src dst : string).\n"
+            f"Definition final_publish (save_centroids : bool) : list pub_action :=\n"
+            f"  if save_centroids then {coq_acts(t)}\n  else {coq_acts(f)}.")
+
+
 def gen_mr():
     """bblean/multiround.py: the names of the files written by _save_bufs_and_mol_idxs"""
     out = [HEADER.format(src="bblean/multiround.py")]
@@ -786,6 +925,7 @@ def gen_mr():
         {}, effects=["_numpy_streaming_save", "open"]))
     out.append(gen_mr_deletions())
     out.append(gen_mr_prev_globs())
+    out.append(gen_mr_publish())
     return "\n\n".join(out) + "\n"
 
 
